@@ -78,23 +78,29 @@ fn viol(cx: &Cx, prop: &str, class: &str, d: &Desc, opts: &str, ty: &str, input:
     );
 }
 
-/// Coarse trait of the (format, input) pair that known findings are keyed on, so that a listed
-/// finding about e.g. base-suffix formats cannot hide a violation in plain formats.
-fn cause(d: &Desc, class: &str) -> &'static str {
+/// Traits of the format that known findings are keyed on (joined with '+'), so that a listed finding about e.g.
+/// base-suffix formats cannot hide a violation in plain formats.  The driver treats a violation as known when
+/// (class, one of these traits) is listed.
+fn cause(d: &Desc, class: &str) -> String {
     // classes produced by a specific recogniser of one root cause are not split further
     if class.contains(':') {
-        return "-";
+        return "-".into();
     }
-    if !d.has(RMD) {
-        return "no-required-mantissa-digits";
-    }
+    let mut t: Vec<&str> = Vec::new();
     if d.suffix != 0 {
-        return "base-suffix-format";
+        t.push("base-suffix-format");
     }
     if d.prefix != 0 {
-        return "base-prefix-format";
+        t.push("base-prefix-format");
     }
-    "-"
+    if !d.has(RMD) {
+        t.push("no-required-mantissa-digits");
+    }
+    if t.is_empty() {
+        "-".into()
+    } else {
+        t.join("+")
+    }
 }
 
 /// punctuation that is valid for the format: not a digit of the largest radix, not a sign, distinct
